@@ -111,6 +111,8 @@ class Harness(cm.BaseB):
         if chunk["k"] == "pairs":
             for R, C in ((2, 3), (1, 1), (8, 12)):
                 yield {"k": "pair", "R": R, "C": C, "order": "subclass"}
+            for R, C in ((2, 3), (3, 3)):
+                yield {"k": "pair", "R": R, "C": C, "order": "names-reused"}
             for R, C in ((2, 3), (8, 12), (16, 24), (4, 1), (1, 3), (8, 1), (26, 2)):
                 for order in ("plate,trough", "trough,plate", "plate,plate", "trough,trough", "trough,plate,trough"):
                     yield {"k": "pair", "R": R, "C": C, "order": order}
@@ -135,6 +137,22 @@ class Harness(cm.BaseB):
         """several labware with the same dimensions in one process: every one stays consistent"""
         cm.clear_caches()
         R, C = case["R"], case["C"]
+        if case["order"] == "names-reused":
+            # the caller keeps one component_names dict and uses it for two plates with different fillings
+            names = {"A01": "medium"}
+            v1 = [[5.0] * C for _ in range(R)]
+            v2 = [[5.0] + [0.0] * (C - 1)] + [[0.0] * C for _ in range(R - 1)]
+            V = []
+            try:
+                a = rt.Labware("first", R, C, min_volume=0, max_volume=10, initial_volumes=v1, component_names=names)
+                b = rt.Labware("second", R, C, min_volume=0, max_volume=10, initial_volumes=v2, component_names=names)
+            except Exception as e:
+                return "pair", repr(case), [("C20/representable-spec-rejected", f"two {R}x{C} plates built with one component_names dict {{'A01': 'medium'}} (the second with only A01 filled): {type(e).__name__}: {e}")]
+            if names != {"A01": "medium"}:
+                V.append(("C20/composition", f"the constructor changed the caller's component_names dict: {names}"))
+            V += self.verify(a, "plate", R, C, v1, 0, 10, {(0, 0): "medium"}, f"first of two plates {R}x{C} sharing a names dict")
+            V += self.verify(b, "plate", R, C, v2, 0, 10, {(0, 0): "medium"}, f"second of two plates {R}x{C} sharing a names dict")
+            return "pair", repr(case), V
         if case["order"] == "subclass":
             # a user subclass that extends a public method and sets its own attributes after the base constructor
             from ..world import CountingLabware
